@@ -8,6 +8,8 @@ import (
 	"errors"
 	"fmt"
 	"io"
+	"log"
+	"os"
 	"strings"
 	"time"
 
@@ -22,6 +24,20 @@ type scriptedReader struct {
 }
 
 var errTimeout = errors.New("read /dev/ttyUSB0: i/o timeout")
+
+// timeoutErr: the shapes in which a source reports a read timeout - a driver's text with the
+// device in front, the bare deadline error of os and net ("i/o timeout" and nothing else), and
+// that error wrapped in a PathError.
+func timeoutErr(k int) error {
+	switch k % 3 {
+	case 1:
+		return os.ErrDeadlineExceeded
+	case 2:
+		return &os.PathError{Op: "read", Path: "/dev/ttyUSB0", Err: os.ErrDeadlineExceeded}
+	}
+	return errTimeout
+}
+
 var errOther = errors.New("read /dev/ttyUSB0: input/output error")
 
 func (s *scriptedReader) Read(p []byte) (int, error) {
@@ -35,7 +51,7 @@ func (s *scriptedReader) Read(p []byte) (int, error) {
 		return 0, io.EOF
 	case it == "to":
 		s.k++
-		return 0, errTimeout
+		return 0, timeoutErr(s.k)
 	case it == "err":
 		s.k++
 		return 0, errOther
@@ -55,7 +71,7 @@ func (s *scriptedReader) Read(p []byte) (int, error) {
 	case "be":
 		return n, io.EOF
 	case "bt":
-		return n, errTimeout
+		return n, timeoutErr(s.k)
 	case "bx":
 		return n, errOther
 	}
@@ -94,6 +110,11 @@ func init() {
 	opTable["reader"] = func(t []string) *Obs {
 		start := unixms(t[1])
 		cfg := jsonconfig.Config{TimeoutOnEOFMilliSeconds: uint(atoi(t[2])), WaitTimeOnEOFMilliseconds: uint(atoi(t[3]))}
+		// the activity log is a configuration the reading must not depend on: it is switched on (its
+		// text going nowhere) for every second script, chosen by the script itself so that it replays
+		if len(strings.Join(t[4:], " "))%2 == 1 {
+			cfg.SystemLog = log.New(io.Discard, "", 0)
+		}
 		items := append([]string{}, t[4:]...)
 		ch := make(chan handler.Message)
 		fh := filehandler.New(ch, &cfg)
@@ -143,8 +164,8 @@ func init() {
 		return &Obs{Line: fmt.Sprintf("stop=%s fwd=%s %s", stop, hx(fwd), typRaw(o.msgs)), Data: o}
 	}
 	props["C13"] = &Prop{
-		Rule: "op reader <T> <tau> <omega> <script>: the real file_handler.Handle on a scripted io.Reader under bufio (chunks of bytes, single/double/triple EOF and i/o-timeout results between and inside " +
-			"frames at every byte offset of short streams, other errors anywhere, including directly after a tolerated interruption), hundreds of single interruptions and two or three separate double interruptions in one call, tolerances (0,0), (80 ms, wait 1 ms), (3 ms, wait 15 ms); forwarded bytes, stop reason and delivered messages compared with " +
+		Rule: "op reader <T> <tau> <omega> <script>: the real file_handler.Handle on a scripted io.Reader under bufio (chunks of bytes, single/double/triple EOF and i/o-timeout results (the timeout as a driver's text, as the bare deadline error and wrapped in a PathError) between and inside " +
+			"frames at every byte offset of short streams, other errors anywhere, including directly after a tolerated interruption), hundreds of single interruptions and two or three separate double interruptions in one call, the activity log on for every second script, tolerances (0,0), (80 ms, wait 1 ms), (3 ms, wait 15 ms); forwarded bytes, stop reason and delivered messages compared with " +
 			"the model run on an ideal clock and with the property (single interruptions invisible; a stop still delivers everything received, channel closed); non-trivial = the script contains an interruption; distinct = distinct op line",
 		Gen: func(c *Ctx, emit func(class, op string)) {
 			r := c.Rng
